@@ -240,6 +240,21 @@ def rejected_objects(fmt, rng):
                        conv_class="horton2")
         if any("p" in list(sh.kinds) for sh in d.obasis.shells):
             out.append(("pure functions", d, "PrepareDumpError", "PrepareDumpError"))
+    # pure functions hidden behind a Cartesian first contraction of a generalized shell
+    if fmt in ("wfn", "wfx"):
+        from iodata.basis import Shell
+        import attrs
+
+        d, _ = wo.make(rng, fmt, nbasis_max=10, spin="restricted", contraction="segmented", ghosts=ghosts, lmax=1, virtuals=True)
+        extra_sh = Shell(0, [1, 2], ["c", "p"], np.array([1.3, 0.4]), np.array([[0.6, 0.8], [0.5, 0.3]]))
+        nb0 = d.obasis.nbasis
+        conv = dict(d.obasis.conventions)
+        conv.setdefault((2, "p"), ["c0", "c1", "s1", "c2", "s2"])
+        conv.setdefault((1, "c"), ["x", "y", "z"])
+        mo = d.mo
+        d.obasis = attrs.evolve(d.obasis, shells=list(d.obasis.shells) + [extra_sh], conventions=conv)
+        d.mo = attrs.evolve(mo, coeffs=np.vstack([mo.coeffs, np.zeros((8, mo.coeffs.shape[1]))]))
+        out.append(("pure functions in a mixed generalized shell", d, "PrepareDumpError", "PrepareDumpError"))
     # non-aufbau occupations for FCHK
     if fmt == "fchk":
         d, _ = wo.make(rng, fmt, nbasis_max=14, spin="restricted", contraction="segmented", ghosts=ghosts, lmax=1, virtuals=True)
